@@ -281,9 +281,11 @@ fn listener_grid(ctx: &mut Ctx) {
     for &m in ALL.iter().filter(|m| m.has_listeners()) {
         let mode = if m == Mw::Retry { Mode::Multiply } else { Mode::Plain };
         let mut baseline: Option<(Vec<String>, Vec<Vec<String>>)> = None;
-        for subset in 0..8u8 {
+        // subsets 0..8: which of the three listeners panic; 8: none panics, every delivery takes
+        // a second (wall time passing inside the poll)
+        for subset in 0..9u8 {
             let panics = [subset & 1 != 0, subset & 2 != 0, subset & 4 != 0];
-            let ls = Listeners::new(panics);
+            let ls = if subset == 8 { Listeners::slow(1000) } else { Listeners::new(panics) };
             let w = World::new(0, 10, InnerMode::Script, 1);
             let plog: Arc<Mutex<ProbeLog>> = Default::default();
             let mut svc = build_on_kind(m, mode, Kind::Strict, GatedInner::new(w.inner.clone()), &plog, Some(ls.clone()));
@@ -307,7 +309,7 @@ fn listener_grid(ctx: &mut Ctx) {
                 });
             }
             let logs: Vec<Vec<String>> = ls.logs.iter().map(|l| l.lock().unwrap().clone()).collect();
-            let config = format!("{} listeners panicking={:?}", m.name(), panics);
+            let config = if subset == 8 { format!("{} listeners slow (1 s per delivery)", m.name()) } else { format!("{} listeners panicking={:?}", m.name(), panics) };
             match &baseline {
                 None => {
                     if logs.iter().all(|l| l.is_empty()) {
@@ -317,12 +319,12 @@ fn listener_grid(ctx: &mut Ctx) {
                 }
                 Some((bo, bl)) => {
                     if *bo != outcomes {
-                        ctx.viol("listener_changed_outcome", &format!("{}::listeners", m.name()), config.clone(), json!({"panicking": panics}), format!("outcomes {:?} with panicking listeners, {:?} without", outcomes, bo));
+                        ctx.viol("listener_changed_outcome", &format!("{}::listeners", m.name()), config.clone(), json!({"panicking": panics}), format!("outcomes {:?} with {} listeners, {:?} with well-behaved ones", outcomes, if subset == 8 { "slow" } else { "panicking" }, bo));
                     }
                     if *bl != logs {
-                        ctx.viol("listener_missed_events", &format!("{}::listeners", m.name()), config.clone(), json!({"panicking": panics}), format!("event sequences {:?} with panicking listeners, {:?} without", logs, bl));
+                        ctx.viol("listener_missed_events", &format!("{}::listeners", m.name()), config.clone(), json!({"panicking": panics}), format!("event sequences {:?} with {} listeners, {:?} with well-behaved ones", logs, if subset == 8 { "slow" } else { "panicking" }, bl));
                     }
-                    ctx.rep.witness("listener_panicked_and_was_contained", 1);
+                    ctx.rep.witness(if subset == 8 { "slow_listener_changed_nothing" } else { "listener_panicked_and_was_contained" }, 1);
                 }
             }
             ctx.rep.distinct.insert(config);
